@@ -21,15 +21,19 @@ def startsWith (s p : List Char) : Bool := s.take p.length == p
 def isWs (c : Char) : Bool := c == ' ' || c == '\t' || c == '\n' || c == '\r'
 def stripWs (s : List Char) : List Char := ((s.dropWhile isWs).reverse.dropWhile isWs).reverse
 
+/-- `re.match(r"CM_ +SG_ ", d)` and its siblings: `CM_`, at least one blank, the class keyword and a blank -/
+def cmClass (d : List Char) (kw : List Char) : Bool :=
+  startsWith d "CM_ ".toList && startsWith ((d.drop 4).dropWhile (· == ' ')) kw
+
 /-- the `elif decoded.startswith(...)` chain, in source order -/
 def classify (line : List Char) : LineKind :=
   let d := stripWs line
   if startsWith d "BO_ ".toList then .bo
   else if startsWith d "SG_ ".toList then .sg
   else if startsWith d "BO_TX_BU_ ".toList then .boTxBu
-  else if startsWith d "CM_ SG_ ".toList then .cmSg
-  else if startsWith d "CM_ BO_ ".toList then .cmBo
-  else if startsWith d "CM_ BU_ ".toList then .cmBu
+  else if cmClass d "SG_ ".toList then .cmSg
+  else if cmClass d "BO_ ".toList then .cmBo
+  else if cmClass d "BU_ ".toList then .cmBu
   else if startsWith d "BU_:".toList then .bu
   else if startsWith d "VAL_ ".toList then .val
   else if startsWith d "VAL_TABLE_ ".toList then .valTable
